@@ -2,6 +2,7 @@ package main
 
 import (
 	"fmt"
+	"go/ast"
 	"go/token"
 	"go/types"
 	"strings"
@@ -1471,4 +1472,266 @@ func freeVarHolds(fn, cl *ssa.Function, fv *ssa.FreeVar, pred func(ssa.Value) bo
 		}
 	}
 	return false
+}
+
+func init() {
+	register(&Rule{
+		ID: "LPM-INDEXER-KEYS", Props: []string{"C18"}, Floor: 2,
+		Doc: "every Indexer of an LPM index (a type whose newTableIndex builds an lpmIndex) answers ObjectToKey with nil or with the encoded LPM key (lpm.EncodeLPMKey, directly or through a function of package lpm that returns its result) - the same key the object is stored and queried under - never with the raw data yielded by FromObject",
+		Run: ruleLpmIndexerKeys,
+	})
+}
+
+func ruleLpmIndexerKeys(c *Ctx, r *Reporter) {
+	pkg := c.ByPath["github.com/cilium/statedb"]
+	if pkg == nil {
+		r.anchorMissing("package statedb")
+		return
+	}
+	info := pkg.TypesInfo
+	// functions of package lpm all of whose results are EncodeLPMKey calls
+	var encodes func(f *types.Func, depth int) bool
+	encodes = func(f *types.Func, depth int) bool {
+		if f == nil || f.Pkg() == nil || shortPkg(f.Pkg().Path()) != "lpm" || depth > 3 {
+			return false
+		}
+		if f.Name() == "EncodeLPMKey" {
+			return true
+		}
+		fn := c.byObj[f]
+		if fn == nil {
+			return false
+		}
+		rets := returnsOf(fn)
+		if len(rets) == 0 {
+			return false
+		}
+		for _, ret := range rets {
+			vals := retValues(ret)
+			if len(vals) != 1 {
+				return false
+			}
+			call, ok := vals[0].(*ssa.Call)
+			if !ok {
+				return false
+			}
+			sc := staticCallee(call)
+			if sc == nil {
+				return false
+			}
+			o, _ := origin(sc).Object().(*types.Func)
+			if !encodes(o, depth+1) {
+				return false
+			}
+		}
+		return true
+	}
+	n := 0
+	for fn, fd := range c.declOf {
+		if fd.Name.Name != "ObjectToKey" || fd.Recv == nil || fd.Body == nil || fn.Package() == nil || fn.Package().Pkg != pkg.Types {
+			continue
+		}
+		// LPM indexer: the sibling newTableIndex builds an lpmIndex
+		nti := c.Func("statedb", recvTypeName(fn), "newTableIndex")
+		if nti == nil {
+			continue
+		}
+		isLPM := false
+		for _, ia := range allInstrs(nti) {
+			if mi, ok := ia.In.(*ssa.MakeInterface); ok && namedTypeName(mi.X.Type()) == "lpmIndex" {
+				isLPM = true
+			}
+		}
+		if !isLPM {
+			continue
+		}
+		n++
+		var judge func(e ast.Expr, depth int) (bool, string)
+		judge = func(e ast.Expr, depth int) (bool, string) {
+			e = ast.Unparen(e)
+			switch x := e.(type) {
+			case *ast.Ident:
+				if x.Name == "nil" && info.Uses[x] == types.Universe.Lookup("nil") {
+					return true, ""
+				}
+				obj := info.Uses[x]
+				if obj == nil || depth > 3 {
+					return false, "the value of " + x.Name
+				}
+				// every assignment of that variable
+				good, seen := true, false
+				why := ""
+				ast.Inspect(fd.Body, func(nd ast.Node) bool {
+					switch s := nd.(type) {
+					case *ast.AssignStmt:
+						for i, l := range s.Lhs {
+							li, ok := l.(*ast.Ident)
+							if !ok || (info.Defs[li] != obj && info.Uses[li] != obj) {
+								continue
+							}
+							seen = true
+							if len(s.Rhs) != len(s.Lhs) {
+								good, why = false, "a multi-value assignment of "+x.Name
+								continue
+							}
+							if g, w := judge(s.Rhs[i], depth+1); !g {
+								good, why = false, w
+							}
+						}
+					case *ast.RangeStmt:
+						for _, l := range []ast.Expr{s.Key, s.Value} {
+							if li, ok := l.(*ast.Ident); ok && (info.Defs[li] == obj || info.Uses[li] == obj) {
+								seen = true
+								good, why = false, "the raw value yielded by "+types.ExprString(s.X)
+							}
+						}
+					}
+					return true
+				})
+				if !seen {
+					return false, "the value of " + x.Name
+				}
+				return good, why
+			case *ast.CallExpr:
+				var f *types.Func
+				switch fx := ast.Unparen(x.Fun).(type) {
+				case *ast.SelectorExpr:
+					f, _ = info.Uses[fx.Sel].(*types.Func)
+				case *ast.Ident:
+					f, _ = info.Uses[fx].(*types.Func)
+				}
+				if f != nil && encodes(f, 0) {
+					return true, ""
+				}
+				// a conversion index.Key(x)
+				if tv, ok := info.Types[x.Fun]; ok && tv.IsType() && len(x.Args) == 1 {
+					return judge(x.Args[0], depth+1)
+				}
+				return false, "the result of " + types.ExprString(x.Fun)
+			}
+			return false, types.ExprString(e)
+		}
+		ord := 0
+		ast.Inspect(fd.Body, func(nd ast.Node) bool {
+			if _, ok := nd.(*ast.FuncLit); ok {
+				return false
+			}
+			ret, ok := nd.(*ast.ReturnStmt)
+			if !ok || len(ret.Results) != 1 {
+				return true
+			}
+			ord++
+			g, w := judge(ret.Results[0], 0)
+			r.check(g, fmt.Sprintf("%s|return#%d is nil or an encoded LPM key", c.fnName(fn), ord), c.posStr(ret.Pos()), "nil or lpm.EncodeLPMKey(data, prefixLen)", "ObjectToKey of an LPM index returns "+w+" instead of the encoded LPM key: the bytes are not masked to the prefix length and carry no length suffix, so objects with the same LPM key get different keys, different LPM keys collide, and the result is not the key the object is stored under (DecodeLPMKey on it panics)")
+			return true
+		})
+		if ord == 0 {
+			r.undecided(c.fnName(fn)+"|returns", c.posStr(fd.Pos()), "no return statement with one result found")
+		}
+	}
+	if n < 2 {
+		r.undecided("statedb|LPM indexers", "", fmt.Sprintf("expected at least 2 LPM indexer types with ObjectToKey, found %d", n))
+	}
+}
+
+func init() {
+	register(&Rule{
+		ID: "MAP-CANON", Props: []string{"C17"}, Floor: 3,
+		Doc: "part.Map keeps one representation per content (empty, singleton, tree of two or more pairs; the equality predicates and Len rely on it): a function that fills a tree with a loop of inserts - a number of distinct keys it does not know - stores it as the Map's tree only under a test of the tree's size or goes on, on every path to its return, through a function that can turn the tree form back into the singleton/empty form",
+		Run: ruleMapCanon,
+	})
+}
+
+func ruleMapCanon(c *Ctx, r *Reporter) {
+	// functions that can leave the tree form: they store false to Map.hasTree
+	canLeave := map[*ssa.Function]bool{}
+	for _, fn := range c.Funcs {
+		if fn.Package() == nil || shortPkg(fn.Package().Pkg.Path()) != "part" {
+			continue
+		}
+		for _, ia := range allInstrs(fn) {
+			if st, ok := ia.In.(*ssa.Store); ok && isFieldAddrOf(st.Addr, "Map", "hasTree") {
+				if k, ok := st.Val.(*ssa.Const); ok && k.Value != nil && k.Value.String() == "false" {
+					canLeave[fn] = true
+				}
+			}
+		}
+	}
+	inLoop := func(b *ssa.BasicBlock) bool { return blockReaches(b, b) }
+	n := 0
+	for _, fn := range c.Funcs {
+		if fn.Package() == nil || shortPkg(fn.Package().Pkg.Path()) != "part" {
+			continue
+		}
+		// an insert into a tree transaction inside a loop
+		loopInsert := false
+		for _, ia := range allInstrs(fn) {
+			call, ok := ia.In.(*ssa.Call)
+			if !ok {
+				continue
+			}
+			if sc := staticCallee(call); sc != nil && recvTypeName(origin(sc)) == "Txn" && strings.HasPrefix(sc.Name(), "Insert") && inLoop(call.Block()) {
+				loopInsert = true
+			}
+		}
+		if !loopInsert {
+			continue
+		}
+		ord := 0
+		for _, ia := range allInstrs(fn) {
+			st, ok := ia.In.(*ssa.Store)
+			if !ok || !isFieldAddrOf(st.Addr, "Map", "tree") {
+				continue
+			}
+			call, ok := st.Val.(*ssa.Call)
+			if !ok {
+				continue
+			}
+			sc := staticCallee(call)
+			if sc == nil || recvTypeName(origin(sc)) != "Txn" || (sc.Name() != "Commit" && sc.Name() != "Clone" && sc.Name() != "CommitAndNotify") {
+				continue
+			}
+			n++
+			ord++
+			// (a) the size was examined on the way to the store
+			sized := false
+			for _, f := range factsAt(st.Block()) {
+				bo, ok := f.Cond.(*ssa.BinOp)
+				if !ok {
+					continue
+				}
+				for _, op := range []ssa.Value{bo.X, bo.Y} {
+					if lc, ok := op.(*ssa.Call); ok {
+						if s := staticCallee(lc); s != nil && s.Name() == "Len" {
+							sized = true
+						}
+					}
+					if _, ok := loadOfField(op, "Tree", "size"); ok {
+						sized = true
+					}
+				}
+			}
+			// (b) every path to a return passes a function that can leave the tree form
+			var escape *ssa.Return
+			if !sized {
+				escape = reachesReturnAvoiding(st, func(in ssa.Instruction) bool {
+					cl, ok := in.(ssa.CallInstruction)
+					if !ok {
+						return false
+					}
+					s := staticCallee(cl)
+					return s != nil && canLeave[origin(s)]
+				}, nil)
+			}
+			key := fmt.Sprintf("%s|tree filled by a loop is stored in canonical form#%d", c.fnName(fn), ord)
+			if sized || escape == nil {
+				r.ok(key, c.posStr(instrPos(st)), "the size of the tree is tested before the store, or a normalising function runs before every return")
+			} else {
+				r.bad(key, c.posStr(instrPos(st)), "the tree is filled by a loop of inserts and stored as the Map's tree without looking at its size: when the inserted keys are not distinct (the same key twice in the JSON/YAML input, two map keys with equal bytes) the Map is a tree holding a single pair, a form the equality predicates do not expect - EqualKeys/SlowEqual with the equal singleton Map are false, SlowEqual the other way round ignores the values, and a decoded value is not equal to the value it was encoded from (return at "+c.posStr(escape.Pos())+")")
+			}
+		}
+	}
+	if n < 3 {
+		r.undecided("part|loop-filled Map trees", "", fmt.Sprintf("expected at least 3 stores of a loop-filled tree into a Map, found %d", n))
+	}
 }
